@@ -1,12 +1,32 @@
 (* C14 (partial: heap ownership is observed with ASan, not modelled).  ONLY statements closed by `exact`, each followed by
-   Print Assumptions.  Theorems about totality of the parser are being added; the failed-load clause is decided by an oracle
-   independent of the model in the correspondence run. *)
+   Print Assumptions.  Conf.parse is the parser model compared with src/config.c on every run. *)
 From Coq Require Import List NArith Bool Strings.Byte.
 Import ListNotations.
-Require Import Conf ConfRT.
+Require Import Conf ConfMerge ConfTotal.
 Local Open Scope N_scope.
 
-Theorem quoted_string_reads_back_exactly : forall n fuel s rest, nonul s ->
-  pstring (S (n + fuel)) (repeat x20 n ++ quote s ++ rest) = Some (inr (s, rest)).
-Proof. exact pstring_blanks_quote. Qed.
-Print Assumptions quoted_string_reads_back_exactly.
+(* reading ANY byte sequence terminates with success or one of the four error kinds: the fuel the model gives itself is never
+   exhausted ... *)
+Theorem parsing_is_total : forall data, parse data <> inl EFuel.
+Proof. exact parse_total. Qed.
+Print Assumptions parsing_is_total.
+
+(* ... and no result is an artefact of the fuel: every larger fuel gives the same answer *)
+Theorem result_does_not_depend_on_fuel : forall c d fuel,
+  (length (cut_nul (c :: d)) < fuel)%nat -> entries fuel (cut_nul (c :: d)) [] = parse (c :: d).
+Proof. exact parse_fuel_stable. Qed.
+Print Assumptions result_does_not_depend_on_fuel.
+
+(* nothing after the first NUL byte matters; the empty file is an error *)
+Theorem bytes_after_nul_are_ignored : forall d junk, parse (d ++ x00 :: junk) = parse (d ++ [x00]).
+Proof. exact parse_cut_nul. Qed.
+Print Assumptions bytes_after_nul_are_ignored.
+
+Theorem empty_file_is_an_error : parse [] = inl EEof.
+Proof. exact parse_empty. Qed.
+Print Assumptions empty_file_is_an_error.
+
+(* on success the tree is strictly sorted by (case-folded name, kind) at every level: keys are unique *)
+Theorem parsed_tree_is_sorted : forall data ks, parse data = inr ks -> tsorted ks.
+Proof. exact parse_result_sorted. Qed.
+Print Assumptions parsed_tree_is_sorted.
